@@ -260,6 +260,26 @@ func (r *srvRun) logPark(text string) {
 	r.sched.hook("user.log", firstWords(text, 3), nil)
 }
 
+// sendPark makes the inside of the transport write a scheduling point - but only when the
+// server's mutex is free, i.e. when the Send is NOT serialised by it (on the unchanged tree every
+// Send happens under the lock, so this never parks there).
+func (r *srvRun) sendPark(b []byte) {
+	srv := r.srv
+	if srv == nil || r.sched == nil {
+		return
+	}
+	mu := mutexOf(srv)
+	if mu == nil || !mu.TryLock() {
+		return
+	}
+	mu.Unlock()
+	k := string(b)
+	if len(k) > 48 {
+		k = k[:48]
+	}
+	r.sched.hook("chan.send.mid", k, nil)
+}
+
 // mutexOf finds the unexported `mu` field (a sync.Mutex or a pointer to one) of a *Server / *Client.
 func mutexOf(p any) *sync.Mutex {
 	f := reflect.ValueOf(p).Elem().FieldByName("mu")
@@ -385,6 +405,7 @@ func runServerScenario(t *testing.T, sc *srvScenario, pickFn func(n int) int, sk
 				return nil
 			}
 		}
+		r.sch.midSend = r.sendPark
 		r.srv = jrpc2.NewServer(srvMux{r}, &jrpc2.ServerOptions{Concurrency: sc.Concurrency, AllowPush: sc.AllowPush, Logger: r.logPark}).Start(r.sch)
 		nextOp := 0
 		lastSeq := 0
